@@ -187,7 +187,6 @@ package graphql
 //@ func Schema.PossibleTypes
 //@   props C07 C12
 //@   nosafety
-//@   requires gq != nil
 //@   assigns nothing
 //@   ensures typeis(abstractType, "*graphql.Interface") && as(abstractType, "*graphql.Interface") != nil && has(gq.implementations, as(abstractType, "*graphql.Interface").PrivateName) ==> result == gq.implementations[as(abstractType, "*graphql.Interface").PrivateName]
 //@   ensures typeis(abstractType, "*graphql.Union") ==> calls("Types") == 1 && result == lastresult("Types")
@@ -810,7 +809,6 @@ package graphql
 //@   props C07 C04
 //@   functional
 //@   nosafety
-//@   requires gq != nil
 //@   opt invoke.Name=pure
 //@   assigns nothing
 //@   at call PossibleTypes: assert arg0 == gq && arg1 == abstractType
